@@ -34,6 +34,7 @@ func runC11(c *Check) {
 	c07PersistedGuard(c, P+".O2", r)
 	c07TeardownOrder(c, P+".O1", r)
 	c07LockOrder(c, P+".O1", r)
+	gcSafety(c, P, r)
 	// registration after the replays were started, on every path
 	for _, ad := range Callers([]*ssa.Function{R}, r.AddSub) {
 		for _, ret := range Returns(R) {
